@@ -32,7 +32,7 @@ def generate(seed, mode="c01", base_cfg=None):
         base_cfg.update({"history": True, "portrefs": True, "noconn": True})
     if mode == "c05":
         base_cfg = dict(base_cfg or {})
-        base_cfg.update({"adv_members": ch.chance(1, 2), "bundles": True, "n_bundles": ch.rint(1, 3, "c05nb")})
+        base_cfg.update({"adv_members": ch.chance(1, 2), "bundles": True, "n_bundles": ch.rint(1, 3, "c05nb"), "history": ch.chance(1, 3)})
     anon_focus = False
     if mode == "c02" and ch.chance(1, 4):
         # a share of the runs looks at anonymous-bundle connections (their sites are rare otherwise)
@@ -281,6 +281,9 @@ def execute(scn):
                 if r3["ok"]:
                     cv = netview.closed_violations(r3["pkg"], prim_ports(), check_tools=False)
                     if cv:
+                        # the edit made the design ill-formed (a connection to a port that does not exist,
+                        # or of another width) and a package was returned for it all the same
+                        res["findings"].append({"prop": "C02", "clause": "accepted:late_edit", "detail": ["a connection edit made after elaboration left the design ill-formed, and to_proto returned a package for it"] + cv[:2]})
                         res["findings"].append({"prop": "C06", "clause": "closed", "detail": cv[:3] + ["(package exported after a connection was made on an instance of the elaborated module)"]})
             except Exception:  # noqa
                 probe("late_connection_refused")
